@@ -9,7 +9,7 @@ for d in $LIST; do
   ex=$(echo "$r" | grep -a "exit=" | tail -1 | sed 's/.*exit=//')
   line=$(echo "$r" | grep -a "VIOLATION\|UNDECIDED\|OK prop" | head -1 | cut -c1-160)
   ob=$(echo "$r" | grep -a "failed obligation" | head -3 | sed 's/.*failed obligation: //' | paste -sd';')
-  inp=$(echo "$r" | grep -a "failing input\|Kani counterexample" | head -1 | sed 's/.*(replayed natively on the real crate): //' | cut -c1-120)
+  inp=$(echo "$r" | grep -a "failing input\|Kani counterexample" | head -1 | sed 's/.*(replayed natively on the real crate[^)]*): //' | cut -c1-120)
   echo "$sid exit=$ex | $line | obligations: $ob | input: $inp" >> $out.tmp
 done
 mv $out.tmp $out
